@@ -1,0 +1,24 @@
+//go:build verif
+
+package protocol
+
+// Verification hooks (build tag "verif"): expose the unexported codec entry
+// points to the external correspondence harness. Add-only; not compiled into
+// normal builds.
+
+// VerifEncodeMAC calls the unexported encode of a MAC command.
+func VerifEncodeMAC(cmd MACCommand, buffer []byte, pos *int) error { return cmd.encode(buffer, pos) }
+
+// VerifDecodeMAC calls the unexported decode of a MAC command.
+func VerifDecodeMAC(cmd MACCommand, buffer []byte, pos *int) error { return cmd.decode(buffer, pos) }
+
+// VerifEncodeSet calls the unexported encode of a MAC command set.
+func VerifEncodeSet(m *MACCommandSet, buffer []byte, pos *int) error { return m.encode(buffer, pos) }
+
+// VerifDecodeSetBounded calls the unexported bounded decoder of a MAC command set.
+func VerifDecodeSetBounded(m *MACCommandSet, buffer []byte, pos *int, end int) error {
+	return m.decodeBounded(buffer, pos, end)
+}
+
+// VerifSetMax returns the size limit of a MAC command set.
+func VerifSetMax(m *MACCommandSet) int { return m.maxLength }
